@@ -5,10 +5,10 @@ import json, subprocess
 CHECKS = {
  # id: (level, engine, technique, text, note, design_ref)
  "C01": ("model_checking", "E1", "explicit-state search (own parallel BFS; stateright selectable) over edit histories of labelled template repositories; real git diff in every state; diff-relative oracle from line labels known by construction",
-         "7 templates (siblings, cross-file Markdown/HTML, nested, Rust multi-line tag in a 3-line comment, cycle + duplicate names + missing target + unnamed, repeated/blank lines, diff-syntax payload without trailing newline); every history of ≤2 (thorough ≤3) line insertions/deletions/replacements and tag-line edits, states merged by resulting contents; `git diff -U{0,1,3}` (thorough 0..10) fed to the real code in diff and diff+glob mode; L1 must/must-not/don't-care content flags from the labels of the diff's -/+ lines, L2 affects diagnostics from the observed flags (same-file, cross-file, comma lists, cycles, duplicates, missing targets), L3 exit status; plus worktree/--cached/commit-to-commit/rename -M diffs of all depth-≤1 (≤2) states through the CLI in real repositories",
+         "8 templates (siblings, cross-file Markdown/HTML, nested, Rust multi-line tag in a 3-line comment, cycle + duplicate names + missing target + unnamed, repeated/blank lines, diff-syntax payload without trailing newline); every history of ≤2 (thorough ≤3) line insertions/deletions/replacements and tag-line edits, states merged by resulting contents; `git diff -U{0,1,3}` (thorough 0..10) fed to the real code in diff and diff+glob mode; L1 must/must-not/don't-care content flags from the labels of the diff's -/+ lines, L2 affects diagnostics from the observed flags (same-file, cross-file, comma lists, cycles, duplicates, missing targets), L3 exit status; plus worktree/--cached/commit-to-commit/rename -M diffs of all depth-≤1 (≤2) states through the CLI in real repositories",
          "git 2.39 trusted to print the diff; four classes of genuine defects are recorded as known findings (three pinned by the repository's own tests, one in the third-party unidiff crate); template T1 also carries a warning-severity sort rule so a second validator reports on the affects file", "§2 C01"),
  "C02": ("model_checking", "E1", "explicit-state search (own parallel BFS) over edit histories incl. character-level tag-line edits; real git diff; per-block edit classification fixes selection and content flag; verdicts compared with a full scan of the same tree",
-         "5 rule-carrying templates (Python over two files, JS with content on the tag's line and a multi-byte character before the tag, JS tag on line 2 of a 3-line comment, Markdown, nested); every history of ≤2 (thorough ≤3) whole-line edits and 10 kinds of character-level tag edits (inside/outside the `<`…`>` span, end-tag comment, same-line content); `git diff -U{0,3}` (thorough 0,1,3,10) without path argument, with `**` and with one file as path argument; selected set, is_content_modified and every selected block's diagnostics vs the full scan",
+         "6 rule-carrying templates (a file without trailing newline ending in an end tag, Python over two files, JS with content on the tag's line and a multi-byte character before the tag, JS tag on line 2 of a 3-line comment, Markdown, nested); every history of ≤2 (thorough ≤3) whole-line edits and 10 kinds of character-level tag edits (inside/outside the `<`…`>` span, end-tag comment, same-line content); `git diff -U{0,3}` (thorough 0,1,3,10) without path argument, with `**` and with one file as path argument; selected set, is_content_modified and every selected block's diagnostics vs the full scan",
          "lines pairwise distinct so git's diff equals the edit script; whole-line edits adjoining a tag line are don't-care; same known findings as C01", "§2 C02"),
  "C03": ("model_checking", "E1", "explicit-state search (level-synchronous parallel BFS; stateright selectable) over construction-kit segment sequences per grammar; real parser executed in every state against blocks known by construction",
          "for each of the 23 grammars (all 39 registered suffixes): every sequence of ≤3 (thorough ≤4) segments — code, string/markup decoys holding tag text, plain comments, start/end tags at every offset of 1- and 3-line comments of every comment form (line, block, doc, decorated, Markdown link-reference with all three title delimiters, HTML/XML), two tags per comment — closed into a balanced file, rendered LF and CRLF, with ASCII and multi-byte text around tags; attributes, line/byte column of `<`, exact content, pairing and source order compared with the construction",
@@ -59,7 +59,7 @@ CHECKS = {
          "every set of ≤2 (thorough ≤3) AI blocks over 10 replies and 11 endpoint faults × 2 files × all delivery orders; exactly one faithful request per block (path, bearer key, model, verbatim user message), OK-class ⇒ no diagnostic, other reply ⇒ one diagnostic quoting it on the start tag, any fault ⇒ run fails in every order; verbatim transport of 8 conditions × 7 contents × 4 patterns (quotes, backslashes, newlines, control characters, Unicode); whole-run faults: no key, empty key, connection refused",
          "async-openai/reqwest trusted for wire encoding; 5xx/429 (retried by the library) are outside the property's fault set", "§2 C19"),
  "C20": ("model_checking", "E2", "stateless exploration of every owned order (block-map iteration, file discovery, diff-section order) × choice-prefix DFS over the scheduling seams; one canonical observable per repository; CLI for every cwd",
-         "8 catalogue repositories (mixed severities, cross-file affects in diff mode, diff + glob, Lua (stateless and stateful) + AI + sync rules, list with diff, a malformed rule, one block name modified in two files, a directory named like a source file): all block-map orders × file-discovery orders (quick: 3 of them) × all diff-section orders × every schedule of the seams (quick: ≤3 deviations, 27k executions; thorough: all) must give one single status + diagnostic multiset / listed blocks / error; every directory as cwd through the real CLI; fresh processes with 1/16 runtime workers as a labelled sampling supplement",
+         "10 catalogue repositories (a type change whose diff has a deleted-file and a new-file section for one path, one error file among warning-only files (CLI only), mixed severities, cross-file affects in diff mode, diff + glob, Lua (stateless and stateful) + AI + sync rules, list with diff, a malformed rule, one block name modified in two files, a directory named like a source file): all block-map orders × file-discovery orders (quick: 3 of them) × all diff-section orders × every schedule of the seams (quick: ≤3 deviations, 27k executions; thorough: all) must give one single status + diagnostic multiset / listed blocks / error; every directory as cwd through the real CLI; fresh processes with 1/16 runtime workers as a labelled sampling supplement",
          "per-process hash seeds of maps other than the block map and real thread timing are not enumerable: argued order-insensitive, sampled by the supplement", "§2 C20"),
  "C09": ("model_checking", "E1", "explicit-state search (parallel BFS; stateright selectable) over content-line sequences × layouts, each state carrying the full (operator, spacing, N) grid",
          "every sequence of ≤5 (thorough ≤7) content lines over {statement, blank, whitespace-only, indented, comment, nested start/end tag} in every layout (tag on own line, content on the tag's line, both tags in one comment, adjacent comments) × 5 operators × 3 spacings × N 0..7; presence and data.actual/op/expected of the diagnostic compared with the reference count",
